@@ -25,7 +25,7 @@ ASSUMPTIONS = [
     "create without -o is run with the cwd equal to the payload's parent, where manual ('adjacent to the content') and code (cwd) agree on <name>.torrent",
 ]
 BUDGET = {
-    "quick": {"examples": 500, "workers": 8, "time_cap": 70},
+    "quick": {"examples": 700, "workers": 8, "time_cap": 70},
     "thorough": {"examples": 12000, "workers": 14, "time_cap": 900},
 }
 COMMANDS = ["recheck", "check", "info", "magnet", "m", "lib-checker", "lib-info", "lib-magnet", "create", "new", "create", "rename", "rename"]
